@@ -75,6 +75,10 @@ class Stats:
         self.sweep_functions = set()
         self.lock_yields = 0
         self.aged_runs = 0
+        self.abort_ops = 0
+        self.abort_points_planned = 0
+        self.abort_runs = 0
+        self.abort_sites = set()
         self.capacity_runs = 0
         self.capacity_found = 0
         self.aged_ops = 0
@@ -280,6 +284,91 @@ def finalize_violation(spec, res, m, ref, repo, max_execs, wall_s=None):
     return data, None
 
 
+def abort_points(tier, seed, stats, found, ref, probes, pool, t_end):
+    """Systematic abort points (the analogue of crash-point enumeration in crash-consistency testing).  Random fault placement
+    draws an event index, so a line inside a hot loop is hit a thousand times more often than a line of a recovery path that
+    runs once.  Here, for a seed-rotated sample of representative ops (one per stratum: kind x dialect x renderer / catalog x
+    accepted / rejected), a forked child first records at which event every distinct line of repo code is executed for the first
+    (and last) time; then one single-client history per such point: the op is aborted (or hits MemoryError) exactly there, and
+    the SAME client thread goes on with the same op again, an accepted and a rejected op of the same stratum kind, and the op
+    once more.  Each must equal its reference (I1), and the probes afterwards (I2)."""
+    c = corpus()
+    st = gen.strata(c, ref)
+    names = sorted(st)
+    rng = random.Random('C20/ABORTPTS/%d' % seed)
+    rng.shuffle(names)
+    k_ops, cap = (10, 220) if tier == 'quick' else (120, 100000)
+    picked = []
+    for name in names:
+        lst = [op for op in gen._light_ops(st[name], 15000) if op['k'] != 'flow']
+        if lst:
+            picked.append((name, lst[rng.randrange(len(lst))]))
+        if len(picked) >= k_ops:
+            break
+    profs = {}
+
+    def on_prof(spec, res):
+        if 'harness_error' not in res:
+            profs[spec['_b']] = res
+
+    pool.run_jobs([(i % len(gen.HASHSEEDS), {'cmd': 'profile', 'op': op, '_b': i, 'wall_limit_s': 60}) for i, (_, op) in enumerate(picked)],
+                  on_result=on_prof, deadline=t_end)
+    specs = []
+    for i, (name, op) in enumerate(picked):
+        pr = profs.get(i)
+        if not pr:
+            continue
+        pts = sorted(set(pr['firsts']) | set(pr['lasts']))
+        if len(pts) > cap:
+            pts = sorted(rng.sample(pts, cap))
+        kind_prefix = name.split('/')[0] + '/' + name.split('/')[1] + '/'
+        same_kind = [n_ for n_ in names if n_.startswith(kind_prefix)]
+        acc = [o for n_ in same_kind if n_.endswith('/ok') for o in gen._light_ops(st[n_], 15000)][:40]
+        rej = [o for n_ in same_kind if n_.endswith('/err') for o in gen._light_ops(st[n_], 15000)][:40]
+        for j, e in enumerate(pts):
+            later = [op]
+            if acc:
+                later.append(acc[(j * 7 + i) % len(acc)])
+            if rej:
+                later.append(rej[(j * 5 + i) % len(rej)])
+            later.append(op)
+            specs.append({
+                'cmd': 'sim', 'property': 'C20', 'sub': 'S2', 'seed': seed * 1_000_000 + 600_000 + len(specs), 'hashseed': gen.hashseed_for(len(specs)),
+                'families': ['abortpts:' + name], 'clients': [[op] + later], 'gran': 'line', 'scope': ['repo'], 'cat_mode': 'shared', 'rnd_mode': 'shared',
+                'meta_share': True, 'strategy': {'kind': 'none'}, 'sched_seed': 0, 'faults': [[0, 0, int(e), 'abort' if (j + i) % 10 < 7 else 'mem']], 'gcs_at': [],
+                'lazy_events': True, 'long': True, 'abortpts': True,
+            })
+    stats.abort_ops = len(profs)
+    stats.abort_points_planned = len(specs)
+    if not specs:
+        return
+    rng.shuffle(specs)
+    ref.ensure([op for sp in specs for op in sp['clients'][0]], count=False)
+    check_twice(ref, pool, found)
+    harness = []
+
+    def on(spec, res):
+        if 'harness_error' in res:
+            harness.append((spec, res['harness_error']))
+            return False
+        stats.add(spec, res)
+        stats.abort_runs += 1
+        for f in res['fired']:
+            stats.abort_sites.add(str(f[4]) if len(f) > 4 else '')
+        if res['mismatches']:
+            found.add(spec, res)
+            if found.full():
+                return False
+        return None
+
+    pool.run_jobs([(sp['hashseed'], gen.attach(sp, ref, probes)) for sp in specs], on_result=on, deadline=t_end)
+    if harness:
+        raise HarnessError('abort points seed %s: %s' % (harness[0][0]['seed'], harness[0][1]))
+    if os.environ.get('VERIF_DEBUG'):
+        print('[C20] abort points: %d ops profiled, %d points planned, %d runs, %d distinct sites hit' % (
+            len(profs), len(specs), stats.abort_runs, len(stats.abort_sites)), flush=True)
+
+
 def explore(tier, seed, repo, budget_s, stats, found, ref, probes, pool, t_end, n_s1, n_s2, instr_frac, sa_frac, chunk=320):
     c = corpus()
     harness = []
@@ -328,6 +417,10 @@ def explore(tier, seed, repo, budget_s, stats, found, ref, probes, pool, t_end, 
     if harness or found.full():
         if harness:
             raise HarnessError('%s seed %s: %s' % (harness[0][0]['sub'], harness[0][0]['seed'], harness[0][1]))
+        return
+    # phase A2: systematic abort points (a fifth of the phase's time at most)
+    abort_points(tier, seed, stats, found, ref, probes, pool, min(t_end, time.time() + max(5.0, (t_end - time.time()) * 0.16)))
+    if found.full():
         return
     specs = []
     i1 = i2 = 0
@@ -595,8 +688,8 @@ def main(tier='quick', seed=0, repo=None):
     probes = c['probes']
     budget_s = float(os.environ.get('VERIF_BUDGET_S', '900' if tier == 'thorough' else '85'))
     if tier == 'quick':
-        n_s1, n_s2, n_s3, s3_slice, instr_frac, sa_frac, max_min = 1600, 800, 24, 400, 0.08, 0.0, 150
-        n_s3g = 60
+        n_s1, n_s2, n_s3, s3_slice, instr_frac, sa_frac, max_min = 1600, 800, 16, 400, 0.08, 0.0, 150
+        n_s3g = 48
         fr = 0.42
         sweep = (2, 3, 0.33)
     else:
@@ -627,7 +720,7 @@ def main(tier='quick', seed=0, repo=None):
         t_end = now + left * fr
         phases = [('startup', round(now - t0, 1))]
         if not found.full():
-            explore(tier, seed, repo, budget_s, stats, found, ref, probes, sim_pool, t_end, n_s1, n_s2, instr_frac, sa_frac)
+            explore(tier, seed, repo, budget_s, stats, found, ref, probes, sim_pool, t_end, n_s1, n_s2, instr_frac, sa_frac, chunk=200 if tier == 'quick' else 320)
         phases.append(('explore', round(time.time() - t0, 1)))
         if not found.full() and sweep[0]:
             t_sw = max(time.time() + 8.0, now + left * (fr + sweep[2]))
@@ -767,6 +860,8 @@ def main(tier='quick', seed=0, repo=None):
             's1_aged_process_runs (a single-threaded prehistory before the clients start)': stats.aged_runs, 's1_aged_prehistory_ops_executed': stats.aged_ops,
             'capacity_directed_runs (process aged to the edge of the capacity of new shared state; 0 on a tree without new state)': stats.capacity_runs,
             'capacity_directed_runs_that_found_a_capacity': stats.capacity_found,
+            'abort_point_sweep': {'ops_profiled': stats.abort_ops, 'points_planned (distinct lines of repo code, first and last execution)': stats.abort_points_planned,
+                                  'runs': stats.abort_runs, 'distinct_sites_where_the_fault_landed': len(stats.abort_sites)},
             's2_long_histories': stats.long_runs, 's2_long_ops_executed': stats.long_ops,
             's2_long_ordered_pairs (earlier op, later op) in one process': stats.long_pairs,
             'focus_sweep_runs': stats.sweep_runs, 'focus_sweep_distinct_functions': len(stats.sweep_functions),
